@@ -401,6 +401,37 @@ pub(crate) fn write_file(f: &FileSpec) -> Result<Vec<u8>, Fail> {
         FileSpec::Delta(d) => build_delta(d)?.write_xml(&mut out),
     };
     r.map_err(|e| Fail::new(format!("write_xml into a Vec failed: {}", e)))?;
+    // the same file through a writer that takes a few octets per call: write_xml may report
+    // an error (object content goes through base64's EncoderWriter, which documents WriteZero
+    // under short writes), but a claimed success must have delivered the same octets
+    struct Short(Vec<u8>, usize);
+    impl io::Write for Short {
+        fn write(&mut self, buf: &[u8]) -> io::Result<usize> {
+            const TAKE: [usize; 7] = [1, 3, 2, 5, 1, 8, 4];
+            let n = buf.len().min(TAKE[self.1 % TAKE.len()]);
+            self.1 += 1;
+            self.0.extend_from_slice(&buf[..n]);
+            Ok(n)
+        }
+        fn flush(&mut self) -> io::Result<()> {
+            Ok(())
+        }
+    }
+    if out.len() <= 20_000 {
+        let mut w = Short(Vec::new(), 0);
+        let r = no_panic("write_xml (short writes)", || match f {
+            FileSpec::Notification(n) => build_notification(n).and_then(|v| Ok(v.write_xml(&mut w))),
+            FileSpec::Snapshot(s) => build_snapshot(s).and_then(|v| Ok(v.write_xml(&mut w))),
+            FileSpec::Delta(d) => build_delta(d).and_then(|v| Ok(v.write_xml(&mut w))),
+        })??;
+        if r.is_ok() && w.0 != out {
+            let at = w.0.iter().zip(out.iter()).position(|(a, b)| a != b).unwrap_or(w.0.len().min(out.len()));
+            return Err(Fail::sig(
+                "c09:writers-differ",
+                format!("write_xml delivers {} octets to a writer taking short writes and {} to a Vec; they differ from octet {}", w.0.len(), out.len(), at),
+            ));
+        }
+    }
     Ok(out)
 }
 
